@@ -7,6 +7,7 @@ CONSTANTS
   Dev_h35 = TRUE
   Emit = TRUE
   KnownClasses = {"multi.split", "multi.coalesce", "array.split", "array.coalesce"}
+  Rich = FALSE
   BaseVal <- BaseMid
 INVARIANTS RefinesExceptKnown SegmentationOK MapsOK DomainOK BuildForm EmitInv
 CHECK_DEADLOCK FALSE
